@@ -82,6 +82,7 @@ type FuncContract struct {
 	Fresh      []string // results that are freshly allocated
 	Wraps      [][2]string // (wrapper, inner): writes to the wrapper object end up in the inner io.Writer
 	Trusted    bool     // body is not verified (explicitly listed as assumption)
+	NilReceiver bool    // the method is written to be called on a nil pointer receiver too
 	Standalone bool     // verified against its own contract, but callers do not use it (they owe it nothing and learn nothing)
 	NoReturn   []Clause // conditions (over entry values) under which the function never returns
 	ReadOnly   bool     // neutral and does not write through pointer arguments either
@@ -474,6 +475,8 @@ func parseSpecFile(path string, pkgPath string, raw bool) (*SpecFile, error) {
 			cur.Trusted = true
 		case "standalone":
 			cur.Standalone = true
+		case "nilreceiver":
+			cur.NilReceiver = true
 		case "noreturn":
 			r := strings.TrimSpace(rest)
 			if strings.HasPrefix(r, "when ") {
